@@ -381,3 +381,76 @@ def update_gp(vc):
     vc.ensures("regressor_installed", vc.attr(acq, "gp") is g)
     vc.ensures_forall("incumbent_is_an_upper_bound", n, lambda i: S.cmp(">=", mx, y.at(i)))
     vc.ensures_exists("incumbent_is_attained", n, lambda i: S.cmp("==", mx, y.at(i)))
+
+
+@contract("C18", "starting_positions", native=False, replay_with="propose_add_native")
+def starting_positions(vc):
+    """starting_positions(bounds): one start per data point, every start inside the search box shrunk by 1% on each side (hence
+    inside the box), and the caller's bounds are not written (d in {1, 2}; any number of data points)"""
+    d = vc.choice("d", [1, 2])
+    n = vc.int("n", lo=1)
+    x = vc.matrix("x", n, d, origin="state")
+    as_array = vc.choice("bounds_given_as", ["list_of_tuples", "array"])
+    lo = [vc.real(f"lo{i}") for i in range(d)]
+    wd = [vc.real(f"width{i}", pos=True) for i in range(d)]
+    hi = [S.add(a, w) for a, w in zip(lo, wd)]
+    if as_array == "array":
+        vals = [[lo[i], hi[i]] for i in range(d)]
+        bounds = Tensor((d, 2), lambda i, j: vals[int(S.unwrap(i)) if isinstance(S.unwrap(i), int) else 0][int(S.unwrap(j)) if isinstance(S.unwrap(j), int) else 0]
+                        if isinstance(S.unwrap(i), int) and isinstance(S.unwrap(j), int) else
+                        S.ite(S.cmp("==", j, 0), _sel(lo, i), _sel(hi, i)), origin="input:bounds")
+    else:
+        bounds = [(lo[i], hi[i]) for i in range(d)]
+    acq = vc.new(ACQ, "UpperConfidenceBound")
+
+    class G:
+        def get_attr(self, I, name):
+            return x if name == "x" else getattr(self, name)
+
+    vc.setattr(acq, "gp", G())
+    vc.modular("UpperConfidenceBound.opt_func", lambda I, func, args, kwargs: vc.fresh_real("objective"))
+
+    class Starts(LoopSpec):
+        name = "starts"
+
+        def __init__(self, vc_):
+            super().__init__(vc_)
+            self.keep_locals = ("starts",)
+
+        def _inside(self, v, j):
+            m = S.mul(S.div(1, 100), wd[j])
+            return S.And(S.cmp(">=", v, S.add(lo[j], m)), S.cmp("<=", v, S.sub(hi[j], m)))
+
+        def havoc(self, I, fr, k):
+            c = ctx_()
+            f = z3.Function(str(c.fresh("start_h", "Int")), z3.IntSort(), z3.IntSort(), z3.RealSort())
+            for j in range(d):
+                c.add_forall((n,), lambda t, j=j: S.z(self._inside(Sym(f(S.z(t), z3.IntVal(j))), j)), "starts-inside")
+            fr.locals["starts"] = SymList(k, lambda t: Tensor((d,), lambda j, t=t: Sym(f(S.z(t), S.z(j)))))
+
+        def on_iteration_end(self, I, fr, k):
+            L = fr.locals["starts"]
+            ok = isinstance(L, SymList)
+            self.vc.ensures("starts.one_start_per_data_point", ok and S.cmp("==", L.length(), S.add(k, 1)))
+            if ok:
+                new = L.at(k)
+                for j in range(d):
+                    self.vc.ensures("starts.new_start_inside_the_shrunk_box", self._inside(new.at(j), j))
+
+    vc.loop("AcquisitionFunction.starting_positions", "for#0", Starts(vc))
+    starts = vc.call(acq, "starting_positions", bounds)
+    vc.ensures("one_start_per_data_point", isinstance(starts, SymList) and S.cmp("==", starts.length(), n))
+    vc.ensures("search_bounds_not_written", len(vc.writes_to_inputs()) == 0)
+
+
+def _sel(items, i):
+    from pyvc.interp import _select
+    return _select(list(items), i)
+
+
+def ctx_():
+    from pyvc.sym import ctx
+    return ctx()
+
+
+from pyvc.loops import LoopSpec
